@@ -373,6 +373,23 @@ func cdcWorkerMain() {
 				p, msg := cdcCall(func() { ptr, resp.Consumed, derr = cdc.Dec(data, seg) })
 				metrics.Read(sample)
 				resp.Alloc = sample[0].Value.Uint64() - before
+				// The runtime publishes allocation statistics per processor, lazily: bytes allocated
+				// shortly BEFORE the window (request parsing, an earlier large request) can be
+				// accounted inside it. What a decoder allocates for an input is deterministic, so a
+				// large reading is taken again and the smallest reading counts.
+				if !p && resp.Alloc > 128<<10 {
+					for k := 0; k < 2; k++ {
+						metrics.Read(sample)
+						b2 := sample[0].Value.Uint64()
+						if p2, _ := cdcCall(func() { _, _, _ = cdc.Dec(data, seg) }); p2 {
+							break
+						}
+						metrics.Read(sample)
+						if a2 := sample[0].Value.Uint64() - b2; a2 < resp.Alloc {
+							resp.Alloc = a2
+						}
+					}
+				}
 				if p {
 					resp.Panic = msg
 				} else if derr != nil {
